@@ -181,6 +181,8 @@ def check_spend(case, ctx):
     ctx.case(key, reached or case['corr'] in ('proghash', 'witscript_bit', 'wrong_key'), dict(case_json(case), reference=ref_err or 'valid', debugger=tv or 'valid'), cls)
     ctx.count('type:' + typ)
     ctx.count('verdict:' + ('valid' if ref_err is None else 'invalid'))
+    if c['meta'].get('leafkind'):
+        ctx.count('leafkind:%s%s' % (c['meta']['leafkind'], ':' + (ref_err or 'valid') if c['meta']['leafkind'] == 'sigreuse' and case['corr'] == 'none' else ''))
     ctx.count('cell:%s/%s' % (typ, 'valid' if case['corr'] == 'none' else case['corr']))
     if 'refused' not in r:
         # selection, amount and locking script come from the referenced output
